@@ -717,6 +717,8 @@ pub fn build<'a>(cfg: &Config, w: &WorldRef, buf: &'a mut [u8], br: &'a mut Borr
         Sim64x48Rgb666 => only8!(SimModel::<64, 48, Rgb666>::new(), cfg, w, buf, br, clk),
         Sim2048x2048 => both!(SimModel::<2048, 2048, Rgb565>::new(), cfg, w, buf, br, clk),
         SimHwBgr48x64 => both!(SimModelHw::<48, 64>, cfg, w, buf, br, clk),
+        Sim256x256 => both!(SimModel::<256, 256, Rgb565>::new(), cfg, w, buf, br, clk),
+        Sim480x800 => both!(SimModel::<480, 800, Rgb565>::new(), cfg, w, buf, br, clk),
     }
 }
 
